@@ -417,6 +417,21 @@ class ContractType(AddressType, prim='contract', args_len=1):
         return super(ContractType, self).to_python_object()
 
 
+def unparse_code(expr, mode: str):
+    """Render the constants of PUSH instructions in the requested mode (as Tezos does when it unparses code)."""
+    if isinstance(expr, list):
+        return [unparse_code(item, mode) for item in expr]
+    if isinstance(expr, dict) and expr.get('args'):
+        args = expr['args']
+        if expr.get('prim') == 'PUSH' and len(args) == 2:
+            value = MichelsonType.match(args[0]).from_micheline_value(args[1])
+            args = [args[0], value.to_micheline_value(mode=mode)]
+        else:
+            args = [unparse_code(arg, mode) for arg in args]
+        return {**expr, 'args': args}
+    return expr
+
+
 class LambdaType(MichelsonType, prim='lambda', args_len=2):  # type: ignore
     def __init__(self, value: Type[Micheline]):
         super(LambdaType, self).__init__()
@@ -465,8 +480,7 @@ class LambdaType(MichelsonType, prim='lambda', args_len=2):  # type: ignore
         return self.value
 
     def to_micheline_value(self, mode='readable', lazy_diff=False):
-        # TODO: optimized mode -> harcoded values in the code
-        return self.value.as_micheline_expr()
+        return unparse_code(self.value.as_micheline_expr(), mode)
 
     def to_python_object(self, try_unpack=False, lazy_diff=False, comparable=False):
         assert not comparable, f'{self.prim} is not comparable'
